@@ -278,6 +278,31 @@ class VSvcDeco(_SvcMixin, PoolDecorator):
 
 
 @service(flavour=asyncio)
+class VSvcStubborn(_SvcMixin, PoolDecorator):
+    """An asyncio service with a retry loop: it takes the first interruption of a step for a failed step and carries on."""
+
+    def __init__(self, target, label="stubborn", **kwargs):
+        super().__init__(target)
+        self._setup(label, kwargs)
+
+    async def run(self):
+        _event("run", label=self.label, flavour="asyncio")
+        n, absorbed = 0, False
+        while True:
+            try:
+                if self.fail_after is not None and n >= self.fail_after:
+                    return self._fail()
+                _event("beat", label=self.label, n=n)
+                n += 1
+                await asyncio.sleep(self.period)
+            except asyncio.CancelledError:
+                if absorbed:
+                    _event("cancelled", label=self.label)
+                    raise
+                absorbed = True
+
+
+@service(flavour=asyncio)
 class VSvcAgain(VSvcDeco):
     """A subclass of a service class that is declared a service once more (same flavour)."""
 
@@ -322,6 +347,6 @@ class VSvcThread(_SvcMixin, PoolDecorator):
 
 
 # every recording class is also reachable through a namespace class and an alternative constructor
-for _cls in (VCtrl, VDeco, VDeco2, VDecoFalsy, VPool, VPoolEmpty, VSvcPool, VSvcEmpty, VSvcCtrl, VSvcTrioDeco, VSvcDeco, VSvcAgain, VSvcWaiter, VSvcThread):
+for _cls in (VCtrl, VDeco, VDeco2, VDecoFalsy, VPool, VPoolEmpty, VSvcPool, VSvcEmpty, VSvcCtrl, VSvcTrioDeco, VSvcDeco, VSvcAgain, VSvcStubborn, VSvcWaiter, VSvcThread):
     setattr(Site, _cls.__name__, _cls)
     _cls.build = classmethod(_build)
